@@ -354,6 +354,12 @@ def dispatch (op : String) (args : List String) : String :=
       let r : Nat → Q := circumcenter2 (fun k => a.getD k 0) (fun k => b.getD k 0) (fun k => c.getD k 0)
       "ok " ++ showTens ⟨[3], #[r 0, r 1, r 2]⟩
     | _, _, _ => "bad-op"
+  | "m.crconic", [cr, a, b, c, d] => match parseQ cr, parseVec a, parseVec b, parseVec c, parseVec d with
+    | some cr, some a, some b, some c, some d =>
+      let f (v : List Q) : Nat → Q := fun k => v.getD k 0
+      "ok " ++ showTens ⟨[3, 3], ((List.range 3).flatMap fun i => (List.range 3).map fun j =>
+        crM cr (f a) (f b) (f c) (f d) i j + crM cr (f a) (f b) (f c) (f d) j i).toArray⟩
+    | _, _, _, _, _ => "bad-op"
   | "m.planefoot", [e, p] => match parseVec e, parseVec p with
     | some e, some p =>
       let r : Nat → Q := planeFoot (fun k => e.getD k 0) (fun k => p.getD k 0)
